@@ -131,3 +131,67 @@ Example C01_source_write_header_nonvacuous :
                                     [[210; 255; 0; 0; 0; 0; 0; 1; 17; 112; 1; 2; 3; 4]%Z])
   /\ write_header h = inr [210; 255; 0; 0; 0; 0; 0; 1; 17; 112; 1; 2; 3; 4].
 Proof. vm_compute. repeat split; try reflexivity; try (intro; discriminate); repeat constructor. Qed.
+
+(* ---------------------------------------------------------------------------------------------
+   Tie C4 (source level): read.go ReadHeader translated from the Go SOURCE on this run (gen/Translated3.v).
+   io.Reader is a STATEFUL oracle (GoMem.g_reader: the history of earlier calls + a function of it);
+   io.ReadFull is the library function GoMem.m_io_read_full (io.ReadAtLeast's loop transcribed over that oracle).
+   src_reader s0 h is the reader that serves the chunked stream s0 (lib/Stream.v: non-empty chunks, then EOF or
+   an error) after the calls in h; src_at s0 h is what is left of the stream.
+
+   C01_source_read_full: over such a reader io.ReadFull into any valid buffer t IS the model's read_full — same
+   byte count, same error class (nil / EOF / ErrUnexpectedEOF / the stream's error), same remaining stream;
+   the buffer holds the bytes read followed by its old rest; nothing else in the heap changes; no panic, and
+   the loop ends within len(t)+2 iterations.
+
+   C01_source_read_header: for EVERY world and EVERY chunking of EVERY byte stream, ReadHeader returns normally
+   (no index / slice panic on the 12-byte buffer, neither ReadFull out of fuel), allocates exactly one new array
+   and touches no older memory, consumes exactly what read_header consumes, and returns read_header's result:
+   the same Header value (Fin, Rsv, OpCode, Masked, Mask, Length) or the same error class (io error of the
+   first or second hop, ErrHeaderLengthMSB; ErrHeaderLengthUnexpected is dead code). *)
+Require GoSlices GoMem Translated3 Translated3Ok Translated3Hdr Translated4Hdr.
+Theorem C01_source_read_full : forall s0 w0 t h cur,
+  GoMem.sl_valid w0 t -> wf_src (Translated4Hdr.src_at s0 h) -> GoSlices.go_len cur = GoMem.sl_len t ->
+  let '((r, e), s') := read_full (len cur) (Translated4Hdr.src_at s0 h) in
+  exists h',
+    GoMem.m_io_read_full Translated3.E_io_EOF Translated3.E_io_ErrUnexpectedEOF Translated3.g3_is_eof
+      (Translated4Hdr.src_reader s0 h) t (GoMemProofs.sl_put w0 t cur) =
+    GoSlices.Ok ((Z.of_nat (length r), option_map Translated4Hdr.rerr_go e, Translated4Hdr.src_reader s0 h'),
+        GoMemProofs.sl_put w0 t (Translated3Ok.zb r ++ skipn (length r) cur))
+    /\ Translated4Hdr.src_at s0 h' = s' /\ wf_src s' /\ (length r <= length cur)%nat
+    /\ (e = None -> length r = length cur).
+Proof. exact Translated4Hdr.m_io_read_full_ok. Qed.
+Print Assumptions C01_source_read_full.
+
+Theorem C01_source_read_header : forall s0 hist w,
+  wf_src (Translated4Hdr.src_at s0 hist) -> wf_bytes (flat (Translated4Hdr.src_at s0 hist)) ->
+  exists hd err hist' arr,
+    Translated3.g3_ReadHeader (Translated4Hdr.src_reader s0 hist) w =
+      GoSlices.Ok ((hd, err, Translated4Hdr.src_reader s0 hist'),
+                   GoMem.mk_world (GoMem.w_heap w ++ [arr]) (GoMem.w_out w))
+    /\ Translated4Hdr.src_at s0 hist' = snd (read_header (Translated4Hdr.src_at s0 hist))
+    /\ match fst (read_header (Translated4Hdr.src_at s0 hist)) with
+       | inr hm => err = None /\ hd = Translated3Hdr.hdr_z hm
+       | inl e => err = Some (Translated4Hdr.herr_go e)
+       end.
+Proof. exact Translated4Hdr.g3_ReadHeader_ok. Qed.
+Print Assumptions C01_source_read_header.
+
+(* a masked text frame header with a 16-bit length (81 FE 01 00, mask 1 2 3 4) followed by one payload byte,
+   delivered one byte per Read: Fin, opcode 1, masked, Length 256, Mask 1 2 3 4; the payload byte is left; and a
+   stream that ends inside the extended length: ErrUnexpectedEOF *)
+Example C01_source_read_header_nonvacuous :
+  let s := bytewise [129; 254; 1; 0; 1; 2; 3; 4; 9] TEOF in
+  (match Translated3.g3_ReadHeader (Translated4Hdr.src_reader s []) (GoMem.mk_world [[7%Z]] []) with
+   | GoSlices.Ok ((hd, err, r'), w') =>
+       hd = Translated3.g3_mk_Header true 0%Z 1%Z true [1; 2; 3; 4]%Z 256%Z /\ err = None
+       /\ flat (Translated4Hdr.src_at s (GoMem.rd_hist r')) = [9]
+       /\ firstn 1 (GoMem.w_heap w') = [[7%Z]] /\ length (GoMem.w_heap w') = 2%nat
+   | _ => False
+   end)
+  /\ fst (read_header s) = inr (mkHeader true 0 1 true [1; 2; 3; 4] 256%Z)
+  /\ (match Translated3.g3_ReadHeader (Translated4Hdr.src_reader (whole [129; 126; 1] TEOF) []) (GoMem.mk_world [] []) with
+      | GoSlices.Ok ((_, err, _), _) => err = Some Translated3.E_io_ErrUnexpectedEOF
+      | _ => False
+      end).
+Proof. vm_compute. repeat split; reflexivity. Qed.
